@@ -2,7 +2,8 @@
     tunnel.go, endpoint_server.go, msg_read.go, decoder.go, connection.go,
     proxy.go, tls_hello_conn.go and netutil/join_conn.go (Gen/StreamConsts.v). *)
 From Coq Require Import List NArith Bool String Lia.
-From Verif Require Import Lib.Bytes Sni.Wire Sni.Hello Sni.Stream Gen.StreamConsts Gen.HelloConsts.
+From Verif Require Import Lib.Bytes Sni.Wire Sni.WireProofs Sni.WireGen Gen.WireSchema.
+From Verif Require Import Sni.Hello Sni.Stream Gen.StreamConsts Gen.HelloConsts.
 Import ListNotations.
 Local Open Scope N_scope.
 
@@ -84,7 +85,6 @@ Proof. vm_compute. reflexivity. Qed.
     with the codec proved in C13 and writes the decoded bytes to the pipe;
     handleRead's bytes come back in a readResponse decoded into the caller's
     buffer.  For every chunk both decodes return the chunk. *)
-From Verif Require Import Sni.WireProofs Sni.WireGen Gen.WireSchema.
 Local Open Scope N_scope.
 
 Definition write_request_name : string := "writeRequest"%string.
